@@ -189,7 +189,7 @@ def attribute(clause, ctx):
         return {"C20"}
     if clause == "FormatMismatch":
         return {"C09"}
-    if clause in ("StableMismatch", "GetKError", "SetFailed"):
+    if clause in ("StableMismatch", "GetKError", "SetFailed", "StableAliased"):
         return {"C08"} | ({"C10"} if fam == "fault" else set()) | ({"C03"} if fam == "crash" and clause == "SetFailed" else set())
     if clause in ("DirExtra", "DirMissing", "SegmentIDReused", "CreateCollision"):
         return {"C13"}
